@@ -633,6 +633,25 @@ class C12(Check):
             return self.viol("model: a program inside the proven domain (wf) does not round-trip in the model itself", c, "-", M)
         if M.get("lex") != "1" and not kfs:
             return self.viol("model: the text of an expression does not scan to the token list of toksExpr", c, "-", M)
+        # ---- statement / program level (round C12-deepen): the statements of the new theorems, evaluated per case
+        fd = self.stats.setdefault("forms", {})
+        for fm in M.get("forms", "-").split(","):
+            if fm != "-":
+                fd[fm] = fd.get(fm, 0) + 1
+        for k in ("ptoks", "prt", "flat", "isep", "pfix"):
+            if M.get(k) == "1":
+                self.count("model_" + k)
+        if M.get("pfix") != "1":
+            return self.viol("model: unparse (normP p) differs from unparse p (contradicts C12.unparse_fixpoint_program)", c, "-", M)
+        if M.get("wf") == "1" and M.get("ptoks") != "1":
+            return self.viol("model: the saved bytes of a well-formed program do not scan to toksProgram (byte->token step of the statement theorems)", c, "-", M)
+        if M.get("wf") == "1" and M.get("isep") != "1":
+            return self.viol("model: a print list outside every finding region violates the explicit side condition itemsSep", c, "-", M)
+        if M.get("wf") == "1" and M.get("prt") != "1":
+            return self.viol("model: parse (toksProgram p) is not normP p for a well-formed program (statement of C12.program_roundtrip_partial%s)" % (
+                ", INSIDE its proved domain" if M.get("flat") == "1" else ""), c, "-", M)
+        if M.get("ptoks") == "1" and M.get("prt") == "1" and not (M.get("re") == "ok" and M.get("tree") in ("same", "norm")):
+            return self.viol("model: token-level round trip holds but the byte-level one does not", c, "-", M)
         # ---- second parse / second unparse: impl == model
         mre = M.get("re", "")
         fused = KF_PRINT in kfs and p2 in ("perr:2", "perr:16")
